@@ -507,10 +507,14 @@ class Doist(tyming.Tymist):
             doers is list of doers to add as extension.
 
         """
-        doers = [doer for doer in doers if doer not in self.doers] # ensure unique
-        deeds = self.enter(doers=doers)  # provide fresh deeds for new doers
-        self.doers.extend(doers)
-        self.deeds.extend(deeds)
+        for doer in doers:
+            if doer in self.doers:  # ensure unique, also when repeated in doers
+                continue
+            # enter one at a time so when an enter raises the doers already
+            # entered are in .deeds and get exited with the others
+            deeds = self.enter(doers=[doer])  # provide fresh deeds for new doer
+            self.doers.append(doer)
+            self.deeds.extend(deeds)
 
 
     def remove(self, doers):
@@ -1400,10 +1404,14 @@ class DoDoer(Doer):
             doers is list of doers to add as extension.
 
         """
-        doers = [doer for doer in doers if doer not in self.doers] # ensure unique
-        deeds = self.enter(doers=doers)  # provide fresh deeds for new doers
-        self.doers.extend(doers)
-        self.deeds.extend(deeds)
+        for doer in doers:
+            if doer in self.doers:  # ensure unique, also when repeated in doers
+                continue
+            # enter one at a time so when an enter raises the doers already
+            # entered are in .deeds and get exited with the others
+            deeds = self.enter(doers=[doer])  # provide fresh deeds for new doer
+            self.doers.append(doer)
+            self.deeds.extend(deeds)
 
 
     def remove(self, doers):
